@@ -25,7 +25,7 @@ func runC07(p *Program, r *Report) {
 	for _, m := range []struct {
 		r string
 		n int
-	}{{"C07.R1", 10}, {"C07.R2", 2}, {"C07.R3", 8}, {"C07.R4", 1}, {"C07.R5", 5}, {"C07.R6", 2}} {
+	}{{"C07.R1", 10}, {"C07.R2", 2}, {"C07.R3", 8}, {"C07.R4", 1}, {"C07.R5", 5}, {"C07.R6", 1}} {
 		r.Min(m.r, m.n)
 	}
 	checkAliasReset(p, r, "C07.R4")
@@ -153,9 +153,9 @@ func runC07(p *Program, r *Report) {
 			r.Undec("C07.R2", "template."+name, "", "anchor not found")
 			continue
 		}
-		var flagStores []*ssa.Store
+		var flagStores []ssa.Instruction
 		if ff != nil {
-			flagStores = ff.setStores(f)
+			flagStores = ff.setPoints(f)
 		}
 		locks := callsIn(f, "(*sync.Mutex).Lock")
 		pe := newPathExplorer(p, f)
